@@ -4,7 +4,8 @@ use std::fmt::Display;
 use std::hash::Hash;
 
 /**
-Determines if the union of communities contains all nodes in the graph.
+Determines if the communities are a partition of the nodes of the graph:
+pairwise disjoint sets of node names whose union contains all nodes in the graph.
 
 # Arguments
 
@@ -33,14 +34,17 @@ where
     T: Hash + Eq + Clone + Ord + Display + Send + Sync,
     A: Clone + Send + Sync,
 {
-    let node_names_count = communities
-        .iter()
-        .flatten()
-        .filter(|n| graph.get_node((*n).clone()).is_some())
-        .count();
-    let sum_names = communities.iter().map(|hs| hs.len()).sum::<usize>();
-    let all_nodes_len = graph.get_all_nodes().len();
-    node_names_count == all_nodes_len && sum_names == all_nodes_len
+    // every listed name must be a node and must not have been listed before;
+    // then the communities cover the graph exactly when as many names were seen as there are nodes
+    let mut seen: HashSet<T> = HashSet::new();
+    for community in communities.iter() {
+        for name in community.iter() {
+            if graph.get_node(name.clone()).is_none() || !seen.insert(name.clone()) {
+                return false;
+            }
+        }
+    }
+    seen.len() == graph.get_all_nodes().len()
 }
 
 /**
